@@ -36,6 +36,8 @@ type Config struct {
 	Stubs         []string
 	Outside       []string
 	NoNative      bool
+	LazyFP        bool
+	FPAbstract    map[string]bool // float operations replaced by an arbitrary result (mul, div, sqrt, pow)
 	NoYield       []string // scheduling-point kinds (prefix match) that are not pre-emption points
 	ExpectPanic   bool
 }
@@ -60,6 +62,7 @@ func NewEngine(cfg *Config) *Engine {
 		kind = "z3"
 	}
 	e.solver = NewSolver(kind, e.ts, cfg.Timeout)
+	e.solver.lazyFP = cfg.LazyFP
 	return e
 }
 
@@ -220,6 +223,9 @@ func (p *Path) branchAux(c *Term, aux uint64) bool {
 		return false
 	}
 	p.h.addFeasQueries(1)
+	if debugOn && p.lastInstr != nil && p.lastFrame != nil {
+		dbg("branch at %s in %s", p.lastFrame.pos(p.lastInstr), p.lastFrame.fn.Name())
+	}
 	rt := p.e.solver.CheckWith(c)
 	rf := "sat"
 	if rt != "unsat" {
